@@ -250,6 +250,8 @@ G_EDGES = [
     ("not", lambda t: {"rule": {"not": {"matches": t}}}),
     # through a LOCAL utility of the global rule (same node): g -> its own util `loc` -> target
     ("via-local-util", lambda t: {"rule": {"matches": "loc"}, "utils": {"loc": {"matches": t}}}),
+    # the reference sits NEXT TO a `matches` key of the same rule object
+    ("matches+not", lambda t: {"rule": {"matches": "leafg", "not": {"matches": t}}}),
     ("inside", lambda t: {"rule": {"inside": {"matches": t, "stopBy": "end"}}}),
     ("has", lambda t: {"rule": {"has": {"matches": t, "stopBy": "end"}}}),
     ("precedes", lambda t: {"rule": {"precedes": {"matches": t, "stopBy": "end"}}}),
@@ -262,6 +264,9 @@ G_EDGES = [
     ("constraints", lambda t: {"rule": {"any": [{"kind": "identifier"}, {"kind": "arguments"}, {"kind": "program"}], "pattern": "$Q"},
                                "constraints": {"Q": {"matches": t}}}),
 ]
+
+
+N_COMPOSITE = 6   # the first six edges are same-node edges (matches, all, any, not, via-local-util, matches+not)
 
 
 def canonical(parts):
@@ -332,8 +337,14 @@ def build_cases(tier):
             cases.append(case("rulefile:library-finding", "%s ; %s" % (name, " ".join(argv[:2] + argv[3:4])), files, argv, vals, "rule:" + name))
     # G. global utility rule cycles through utilDirs
     max_len = 1 if quick else 3
-    for n in range(1, max_len + 1):
-        for combo in itertools.product(range(len(G_EDGES)), repeat=n):
+    combos = [c for n in range(1, max_len + 1) for c in itertools.product(range(len(G_EDGES)), repeat=n)]
+    if quick:
+        # cycles of length 2 through same-node edges only (a direct self-reference is a special case
+        # in the loader, so length 1 alone says little about the general cycle check)
+        combos += list(itertools.product(range(N_COMPOSITE), repeat=2))
+    for combo in combos:
+        n = len(combo)
+        if True:
             files = dict(base)
             files.pop("utils/g1.yml")
             # only the small sources: a well-founded recursive rule may need time exponential in the tree size
@@ -345,10 +356,11 @@ def build_cases(tier):
                 g = {"id": "g%d" % i, "language": "JavaScript"}
                 g.update(build("g%d" % ((i + 1) % n)))
                 files["utils/g%d.yml" % i] = emit(g) + "\n"
+            files["utils/leafg.yml"] = emit({"id": "leafg", "language": "JavaScript", "rule": {"kind": "number"}}) + "\n"
             rule = {"id": "r1", "language": "JavaScript",
                     "rule": {"any": [{"kind": "identifier"}, {"kind": "arguments"}, {"kind": "program"}, {"kind": "number"}], "matches": "g0"}}
             files["rules/r1.yml"] = emit(rule) + "\n"
-            composite = all(e < 5 for e in combo)
+            composite = all(e < N_COMPOSITE for e in combo)
             route = "%s:%s" % ("cycle-composite-only" if composite else "cycle-via-other-operator", ">".join("G:" + p for p in canonical(parts)))
             cases.append(case("utildirs:cycle:len%d" % n, "global utility cycle %s" % ">".join(parts), files, SCAN, [], route))
     # H. raw byte strings in every file kind
